@@ -39,6 +39,8 @@ type Case struct {
 	Yields   []int  `json:"yields,omitempty"` // scheduler yields before the i-th receive (cyclic)
 	Procs    int    `json:"gomaxprocs,omitempty"`
 	Via      string `json:"via,omitempty"` // parse | file | gzfile
+	// StallMs: the consumer does nothing for this long before taking the second record ("whatever the consumer's speed")
+	StallMs int `json:"stall_ms,omitempty"`
 }
 
 func records(c Case) []fasta.Fasta {
@@ -152,7 +154,7 @@ func checkRoundtrip(c Case) error {
 	p := filepath.Join(dir, "x.fasta")
 	defer os.Remove(p)
 	vk.StaleFile(p, 2*len(text)+500)
-	fasta.Write(want, p)
+	vk.AlternateTempDir(func() { fasta.Write(want, p) })
 	if got, err = bounded("Read(Write(x))", func() []fasta.Fasta { return fasta.Read(p) }); err != nil {
 		return err
 	}
@@ -224,8 +226,11 @@ func checkStream(c Case) error {
 		}()
 	}
 	var got []fasta.Fasta
-	deadline := time.After(60 * time.Second)
+	deadline := time.After(60*time.Second + time.Duration(c.StallMs)*time.Millisecond)
 	for i := 0; ; i++ {
+		if i == 1 && c.StallMs > 0 {
+			time.Sleep(time.Duration(c.StallMs) * time.Millisecond)
+		}
 		if len(c.Yields) > 0 {
 			for y := 0; y < c.Yields[i%len(c.Yields)]; y++ {
 				runtime.Gosched()
@@ -339,7 +344,7 @@ func nonTrivial(c Case) bool {
 	if longestBuildLine(c) > 65536 {
 		return true
 	}
-	return c.Kind == "stream" && c.Capacity < len(c.Records) && len(c.Yields) > 0
+	return c.Kind == "stream" && c.Capacity < len(c.Records) && (len(c.Yields) > 0 || c.StallMs > 0)
 }
 
 func labels(c Case) []string {
@@ -482,6 +487,36 @@ func genStream(t *rapid.T) Case {
 
 var subRoundtrip = vk.Register(&vk.Sub[Case]{Name: "roundtrip", Gen: genRoundtrip, Check: check, NonTrivial: nonTrivial, Labels: labels, Sample: sample, PreRecord: true})
 var subStream = vk.Register(&vk.Sub[Case]{Name: "stream", Gen: genStream, Check: check, NonTrivial: nonTrivial, Labels: labels, Sample: sample, PreRecord: true})
+
+var subStalls = vk.Register(&vk.Sub[Case]{Name: "stalls", Check: check, NonTrivial: nonTrivial, Labels: labels, Sample: sample})
+
+// TestSub_stalls: a consumer that takes the first record and then does nothing for a while - longer than the round
+// numbers a well-meant timeout would use - before it goes on: every record still arrives, in order, and the channel is
+// closed. One case per process, so the sub-check takes as long as its longest stall.
+func TestSub_stalls(t *testing.T) {
+	stalls := []int{1200}
+	if vk.Thorough() {
+		stalls = []int{1200, 2500, 5500, 11000, 16000, 31000, 61000}
+	}
+	vk.RunManual(t, subStalls, "a consumer stalling for 1.2 s (quick) / 1.2 .. 61 s (thorough) after the first record, channel capacities 0 and 1, through ParseConcurrent and ReadConcurrent", true, func(m *vk.Manual[Case]) {
+		unit := 0
+		for _, ms := range stalls {
+			for _, capacity := range []int{0, 1} {
+				for _, via := range []string{"parse", "file"} {
+					unit++
+					if !vk.Mine(unit) {
+						continue
+					}
+					c := Case{Kind: "stream", Capacity: capacity, Via: via, StallMs: ms, Procs: 2, Layout: Layout{Wrap: 60, FinalNewline: true},
+						Records: []Rec{{Name: "first", Seq: vk.SeqSpec{Lit: "ACGTACGT"}}, {Name: "second", Seq: vk.SeqSpec{Lit: "GGGGCCCC"}}, {Name: "third", Seq: vk.SeqSpec{Lit: "TTTT"}}, {Name: "fourth", Seq: vk.SeqSpec{Lit: "A"}}}}
+					if !m.Eval(c) {
+						return
+					}
+				}
+			}
+		}
+	})
+}
 
 var subLines = vk.Register(&vk.Sub[Case]{Name: "lines", Check: check, NonTrivial: nonTrivial, Labels: labels, Sample: sample})
 
